@@ -13,7 +13,10 @@
                                    in rune columns                 (lexer/parser obligation)
     docSmall doc                   line numbers and UTF-16 offsets of the document fit `uint32`
     hitGuard doc h                 an element whose range was computed by column arithmetic
-                                   (payee estimate, tag halves, name ranges) has a range of the text
+                                   (payee range, tag halves, name ranges) has a range of the text;
+                                   for a payee it holds on every header of the grammar
+                                   (`payeeRange_lexSound`, `payeeHit_guard`: the payee's position
+                                   is read off the header line, fix-payee-range.diff)
 
   Nothing is assumed about the characters that precede a range: the former guard "no rune
   outside the BMP earlier on the line" is gone (the `pinned_…` counterexamples keep the old
@@ -224,7 +227,7 @@ theorem documentSymbol_rangeOK_partial (doc : Txt) (j : Journal)
   exact map_conv_rangeOK ht hd (symbolRanges_sub j) hg
 
 /-- Workspace symbols: every symbol's range is computed from a name (declared account or
-    commodity) or estimated (payee); well-formed whenever those rune columns are positions of the
+    commodity) or read off the header line (payee); well-formed whenever those rune columns are positions of the
     text.  The former guard "the range has an End" is gone. -/
 theorem workspaceSymbol_rangeOK (doc : Txt) (j : Journal) (h : Hit) (x : LRange)
     (hd : docSmall doc = true) (hh : (h, x) ∈ workspaceSymbols (lines doc) j)
